@@ -23,8 +23,13 @@ class Ob:
         self.model = None
         self.detail = None
 
-    def smt2(self):
+    def smt2(self, hints=False):
         s = z3.Solver()
+        if hints:
+            # model-finding help for sat-type obligations: adding constraints can only lose models
+            from .sv import pow10
+            for i in range(0, 13):
+                s.add(pow10(i) == 10 ** i)
         for a in self.assumptions:
             s.add(a)
         if self.must == 'sat':
